@@ -237,7 +237,26 @@ def gen_net_case(rng, kind):
     s.connect()
     s.settle()
     s.obs()
-    if kind == "strict":
+    if kind == "burst":
+        # many outstanding calls through ONE proxy, most of them never answered and abandoned by
+        # timeout, so that the proxy reclaims beyond its per-message budget of 16; then live traffic
+        tgt = sorted(s.known)[0]
+        via = rng.choice([0, 1])
+        for _ in range(rng.choice([20, 40, 70])):
+            mode = rng.choice([2, 2, 3, 0, 1])
+            s.call(10 + rng.randrange(6), via, tgt, mode, 3 if mode == 1 else 0,
+                   0 if mode in (0, 1) and rng.random() < 0.5 else rng.choice([5, 5, 50]), rng.choice([0, 8]))
+        s.op("advance 10")
+        for _ in range(rng.choice([5, 20, 40])):
+            if rng.random() < 0.5:
+                s.cast(rng.randrange(3), via, tgt, rng.choice([0, 5]))
+            else:
+                s.call(10 + rng.randrange(6), via, tgt, 0, 0, 0, 8)
+        s.settle()
+        s.op("advance 300")
+        s.settle()
+        s.obs()
+    elif kind == "strict":
         traffic(s, rng.choice([5, 15, 40, 80]))
         s.settle()
         s.op("advance 300")
@@ -296,6 +315,22 @@ def gen_cut_sweep(rng, quick):
         for n in range(0, 420, step):
             out.append((f"net seed=5 chunk={rng.choice([0, 5])} jitter={rng.choice([0, 1])} | "
                         + base.replace("CUT", f"cut {d} bytes {n}"), 2, 2))
+    return out
+
+
+def load_corpus():
+    """corpus/C20/*.jsonl: fixed regression scenarios {kind, line, strict, expect, quiescent}"""
+    d = os.path.join(ROOT, "corpus", "C20")
+    out = []
+    if os.path.isdir(d):
+        for f in sorted(os.listdir(d)):
+            if f.endswith(".jsonl"):
+                for l in open(os.path.join(d, f)):
+                    l = l.strip()
+                    if l and not l.startswith("#"):
+                        c = json.loads(l)
+                        c["kind"] = "corpus"
+                        out.append(c)
     return out
 
 
@@ -369,10 +404,12 @@ def run(chk):
     ncases = []
     n_net = (200 if quick else 3000) * factor
     for i in range(n_net):
-        kind = ["strict", "strict", "exit", "cut", "cut"][i % 5]
+        kind = ["strict", "strict", "exit", "cut", "cut", "burst"][i % 6]
         s = gen_net_case(rng, kind)
         ncases.append({"kind": kind, "line": s.line(), "strict": s.strict, "expect": sorted(s.expect),
                        "quiescent": s.quiescent})
+    for c in load_corpus():
+        ncases.insert(0, c)
     for line, nq1, nq2 in gen_cut_sweep(rng, quick):
         ncases.append({"kind": "sweep", "line": line, "strict": False, "expect": [], "quiescent": [True, True]})
     try:
